@@ -189,10 +189,11 @@ class Feed:
                 M.ambiguous.add(name)
                 M.ambiguous.add(st["as"])
             self.flags[st["as"]] = self.flags.setdefault(name, set())
+            # applying modifiers always counts as a change of the structure: it freezes registry-provided counts
+            self.touch(name, i)
             if eff:
                 self.flags[name].add("unroll")
                 self.probe("effective-unroll")
-                self.touch(name, i)
             self.born[st["as"]] = ("APPLY", i, name)
             self.apply_info[st["as"]] = {"effective": eff, "top_reps_before": top_reps_before}
             if eff:
